@@ -3,6 +3,7 @@ package props
 // C11 — file views agree and file operations carry the whole file.
 
 import (
+	"bytes"
 	"fmt"
 	"os"
 	"path/filepath"
@@ -649,4 +650,89 @@ func TestC11(t *testing.T) {
 	ev := evid.New("C11", "TestC11")
 	defer ev.Flush()
 	rapid.Check(t, c11prop(ev))
+}
+
+// TestC11Burst: several clients ask for the file list, get-info and a download of
+// different files (of different sizes) at the same instant: every answer must show the size
+// of the file it is about.
+func TestC11Burst(t *testing.T) {
+	ev := evid.New("C11", "TestC11Burst")
+	defer ev.Flush()
+	rapid.Check(t, func(rt *rapid.T) {
+		n := rapid.IntRange(2, 8).Draw(rt, "clients")
+		rounds := rapid.IntRange(5, 20).Draw(rt, "rounds")
+		sizes := rapid.SliceOfNDistinct(rapid.IntRange(0, 70000), n, n, rapid.ID[int]).Draw(rt, "sizes")
+		kinds := rapid.SliceOfN(rapid.SampledFrom([]string{"download", "download", "info", "list"}), n*rounds, n*rounds).Draw(rt, "kinds")
+		inWorld(rt, hlsim.Options{Agreement: "a", Accounts: []hlsim.AccountSpec{acct("admin", "Admin", "adminpw", allAccess)}}, func(rt *rapid.T, w *hlsim.World) {
+			must(os.MkdirAll(filepath.Join(w.FileRoot, "d"), 0o755))
+			var cs []*hlsim.Conn
+			for i := 0; i < n; i++ {
+				must(os.WriteFile(filepath.Join(w.FileRoot, "d", fmt.Sprintf("f%d.bin", i)), bytes.Repeat([]byte{byte(i)}, sizes[i]), 0o644))
+				cs = append(cs, loginAs(rt, w, fmt.Sprintf("10.11.9.%d:1", i+1), "admin", "adminpw", fmt.Sprintf("c%d", i)))
+			}
+			for r := 0; r < rounds; r++ {
+				ids := make([]uint32, n)
+				for i, c := range cs {
+					ids[i] = c.NewID()
+					fs := append([]hlref.Field{sfld(hlref.FFileName, fmt.Sprintf("f%d.bin", i))}, pathField(p1("d"))...)
+					typ := map[string]int{"download": hlref.TranDownloadFile, "info": hlref.TranGetFileInfo, "list": hlref.TranGetFileNameList}[kinds[r*n+i]]
+					if kinds[r*n+i] == "list" {
+						fs = pathField(p1("d"))
+					}
+					c.SendAsync(hlref.Tran{Type: typ, ID: ids[i], Fields: fs}.Encode())
+				}
+				settle(0)
+				for i, c := range cs {
+					var rep *hlref.Tran
+					for _, tr := range c.TakeInbox() {
+						if tr.IsReply == 1 && tr.ID == ids[i] {
+							tt := tr
+							rep = &tt
+						}
+					}
+					ctx := fmt.Sprintf("round %d: %d clients asked at the same instant (%v); client %d's %s of d/f%d.bin (%d bytes on disk)", r, n, kinds[r*n:r*n+n], i, kinds[r*n+i], i, sizes[i])
+					if !okReply(rep) {
+						rt.Fatalf("%s: no positive reply: %s", ctx, replySummary(rep))
+					}
+					switch kinds[r*n+i] {
+					case "list":
+						seen := 0
+						for _, d := range rep.GetAll(hlref.FFileNameWithInfo) {
+							f, err := hlref.DecodeFileNameWithInfo(d)
+							if err != nil {
+								rt.Fatalf("%s: list entry unparseable: %v", ctx, err)
+							}
+							var k int
+							if _, err := fmt.Sscanf(string(f.Name), "f%d.bin", &k); err != nil || k >= n {
+								rt.Fatalf("%s: unexpected entry %q", ctx, f.Name)
+							}
+							seen++
+							if int(f.Size) != sizes[k] {
+								rt.Fatalf("%s: the list shows f%d.bin with %d bytes, on disk %d", ctx, k, f.Size, sizes[k])
+							}
+						}
+						if seen != n {
+							rt.Fatalf("%s: the list shows %d of %d files", ctx, seen, n)
+						}
+					default:
+						sz, ok := rep.Get(hlref.FFileSize)
+						if !ok || hlref.U32(sz) != sizes[i] {
+							rt.Fatalf("%s: the reply says %d bytes", ctx, hlref.U32(sz))
+						}
+						if kinds[r*n+i] == "download" {
+							ts, _ := rep.Get(hlref.FTransferSize)
+							if hlref.U32(ts) <= sizes[i] || hlref.U32(ts) > sizes[i]+400 {
+								rt.Fatalf("%s: the reply announces a transfer of %d bytes", ctx, hlref.U32(ts))
+							}
+						}
+					}
+				}
+			}
+		})
+		ev.Case(evid.Hash("c11burst", fmt.Sprint(sizes), fmt.Sprint(kinds)), true, "burst", fmt.Sprintf("clients:%d", n))
+		ev.Label("burst_rounds", rounds)
+		if ev.WantSample() {
+			ev.Sample(map[string]any{"engine": "bubble, concurrent handlers", "clients": n, "file_sizes": sizes, "first_round": kinds[:n]})
+		}
+	})
 }
